@@ -1653,6 +1653,10 @@ impl<'a> Exec<'a> {
 						if matches!(op, TxOp::Ref(_)) && !kind.is_rc() {
 							continue
 						}
+						if matches!(op, TxOp::Set(..)) && kind.is_preimage() && self.col_cfgs[*c as usize].preimage_vals.len() <= *k {
+							// column converted to preimage by a migration: its key->value function is unknown here
+							continue
+						}
 						if let (TxOp::Set(k, _), true) = (op, kind.is_preimage()) {
 							// the preimage contract: the value is determined by the key
 							out.push((*c, TxOp::Set(*k, self.col_cfgs[*c as usize].preimage_vals[*k])));
@@ -1871,6 +1875,7 @@ impl<'a> Exec<'a> {
 			Op::UnlockTree(c, k) => crate::treeops::unlock_tree(self, *c, *k),
 			Op::TreeHandle(c, k) => crate::treeops::tree_handle(self, *c, *k),
 			Op::Admin(a, pending) => crate::adminops::admin(self, a, *pending),
+			Op::Migrate { dest, overwrite, force, pending } => crate::adminops::migrate(self, dest, *overwrite, force, *pending),
 		}
 		if self.db.is_none() {
 			return
